@@ -91,7 +91,7 @@ PROACTIVE = {
     'C08': [['c08-reach'], ['c08-compactas'], ['c08-resolve'], ['c08-flatten']],
     'C18': [['c18-upcast']],
     'C16': [['c16-builders'], ['c16-subst'], ['c08-flatten']],
-    'C10': [['c10-sanity'], ['c10-resolve'], ['c10-mixed']],
+    'C10': [['c10-sanity'], ['c10-resolve'], ['c10-mixed'], ['c10-paths']],
     'C11': [['c11-contains'], ['c11-validate']],
     'C12': [['c12-primex', '2000']],
 }
